@@ -360,14 +360,65 @@ pub fn run(tier: Tier, replay: Option<&str>) {
             *outcomes.entry(k).or_insert(0) += v;
         }
     }
+    // channel table of the 72-channel plans: with only channel k (and, for the 125 kHz channels, the channel 32 above it) left enabled, every uplink goes out on an enabled channel's
+    // frequency of the regional table (the judge maps the frequency back to a channel index and finds it disabled
+    // otherwise), whatever the RNG draws
+    let mut table_cases = 0u64;
+    let mut table_effective = 0u64;
+    for r in regions.iter().filter(|r| rr::is_fixed(r)) {
+        let rc = RunCfg { board: (14, 0), dev: DevCfg::abp(r) };
+        let cj = serde_json::to_value(&rc).unwrap();
+        for ch in 0..72usize {
+            // (the stack keeps at least two 125 kHz channels: channel k is paired with the one 32 above it.) One
+            // LinkADRReq per downlink, so that the mask is acceptable after every step: the banks of the two
+            // channels first, then the other banks are emptied
+            let partner = (ch + 32) % 64;
+            let mut cmdsq: Vec<Vec<u8>> = vec![];
+            if ch < 64 {
+                cmdsq.push(cmds::link_adr(15, 15, 1 << (ch % 16), (ch / 16) as u8, 1, false).bytes);
+                cmdsq.push(cmds::link_adr(15, 15, 1 << (partner % 16), (partner / 16) as u8, 1, false).bytes);
+                for bank in 0..5u8 {
+                    if bank as usize != ch / 16 && bank as usize != partner / 16 {
+                        cmdsq.push(cmds::link_adr(15, 15, 0x0000, bank, 1, false).bytes);
+                    }
+                }
+            } else {
+                cmdsq.push(cmds::link_adr(if *r == "US915" { 4 } else { 6 }, 15, 1 << (ch - 64), 7, 1, false).bytes);
+            }
+            let draws: Vec<u32> = if ch < 64 { (0..64).collect() } else { vec![0, 1, 45, 63] };
+            for draw in draws {
+                let mut hist: Vec<CEv> = cmdsq.iter().map(|b| CEv::Cmd { label: format!("only-ch{ch}"), bytes: b.clone() }).collect();
+                hist.push(CEv::Up { draw });
+                let mut sys = Sys::<14, 0>::new(&rc.dev);
+                let mut vs = vec![];
+                for e in &hist {
+                    vs.extend(sys.step(e));
+                }
+                let m = sys.core.snap().region.channel_mask;
+                let only = (0..72).all(|i| (m[i / 8] & (1 << (i % 8)) != 0) == (i == ch || (ch < 64 && i == partner)));
+                table_effective += only as u64;
+                table_cases += 1;
+                ctx.tick(1);
+                for v in vs {
+                    ctx.violation(v.sig, v.what, json!({"cfg": cj.clone(), "history": serde_json::to_value(&hist).unwrap()}), 3);
+                }
+            }
+        }
+    }
+    if table_cases > 0 && table_effective * 2 < table_cases {
+        eprintln!("MACHINERY: C09 channel-table sweep is vacuous: only {table_effective} of {table_cases} single-channel masks were installed");
+        std::process::exit(2);
+    }
     let coverage = json!({
+        "channel_table_cases": table_cases,
+        "channel_table_masks_installed": table_effective,
         "states": states,
         "transitions": transitions,
         "traces_validated_against_impl": transitions,
         "samples": [{"cfg": serde_json::to_value(&runs[0]).unwrap(), "history": [serde_json::to_value(CEv::Cmd { label: "adr-ch3-only".into(), bytes: cmds::link_adr(15, 15, 8, 0, 1, false).bytes }).unwrap(), serde_json::to_value(CEv::Up { draw: 3 }).unwrap()]}],
         "evaluations": ctx.evals(),
         "distinct_nontrivial": states,
-        "rule": "BFS over channel-plan histories on the real nb device for every region x board (radio max power, antenna gain) x {ABP, OTAA with join-bias settings, ADR back-off pre-loaded}; in every reached state the next uplink / join attempt is expanded once per first RNG draw (0..63 for 72-channel plans, 0..15 for dynamic plans, fair tail afterwards); other events: LinkADRReq (mask / data rate / TX power), NewChannelReq create/delete, DlChannelReq, JoinAccepts with plain / full / minimal / out-of-band CFLists, set_datarate for every region-defined rate. Every TxConfig handed to the radio is judged against band, channel plan + mask snapshot, regional data-rate table and the power bound",
+        "rule": "BFS over channel-plan histories on the real nb device for every region x board (radio max power, antenna gain) x {ABP, OTAA with join-bias settings, ADR back-off pre-loaded}; in every reached state the next uplink / join attempt is expanded once per first RNG draw (0..63 for 72-channel plans, 0..15 for dynamic plans, fair tail afterwards); other events: LinkADRReq (mask / data rate / TX power), NewChannelReq create/delete, DlChannelReq, JoinAccepts with plain / full / minimal / out-of-band CFLists, set_datarate for every region-defined rate. 72-channel plans additionally: each of the 72 masks that leave one channel (plus, for 125 kHz channels, the channel 32 above it) enabled, installed by LinkADRReq downlinks, then an uplink for every first RNG draw 0..63. Every TxConfig handed to the radio is judged against band, channel plan + mask snapshot, regional data-rate table and the power bound",
         "depth": depth,
         "boards": boards,
         "configurations": runs.len(),
